@@ -82,6 +82,6 @@ class Stock(Element):
                 self._function_string = start_string + "0.0) )"
             else:
                 self._function_string = start_string + \
-                    self._equation.term("t-model.dt") + ") )"
+                    self._equation.term("model.previous_time(t)") + ") )"
         else:
             self._function_string = start_string + ")"
